@@ -2,7 +2,8 @@
 (* C17 trace specification.  One event per executed call of an overload of the table Overloads17 (event "call"), per
    parcpy / parSetZero call (event "par"), or per abnormal end of a call (event "crash": never accepted).
 
-   call event: id = table row; nl lanes; sa sb sc = stride arguments, ia ib ic = index-list arguments passed;
+   call event: id = table row; nl lanes; alias = aliasing mode of the call (Layout.tla AliasModes), aj = the lane whose cell
+     holds the broadcast scalar in modes sc / sa; sa sb sc = stride arguments, ia ib ic = index-list arguments passed;
      aa ab ac = per lane, the arena index the driver designated (it wrote the operand value there, resp. reads the
      result from there); ea eb ec = number of arena elements in front of the inaccessible page (minus the pad cell);
      a, b = per-lane operand words read back from the arenas before the call; r = per-lane result words (register
@@ -24,22 +25,38 @@ AddrOk(d, n, s, ix, addrs, ext) ==
   /\ \A k \in Lanes(n) : addrs[k + 1] = Addr(d, k, s, ix)
   /\ ext = Extent(d, n, s, ix)
 
+(* words known to be in the result cells before the call, per result lane (<<>> = complementary pre-fills) *)
+PreWords(e, row, n) ==
+  LET sop == CHOOSE o \in ScalarOperands(row) : TRUE
+      sw == e[sop][1]                                        \* the broadcast word (all lanes carry it)
+  IN CASE e.alias = "ca" -> e.a
+       [] e.alias = "cb" -> e.b
+       [] e.alias = "sc" -> [k \in 1..n |-> IF e.ac[k] = e.ac[e.aj + 1] THEN sw ELSE <<>>]
+       [] OTHER -> [k \in 1..n |-> <<>>]
+
 OkCall(e) ==
   /\ e.id \in Ov17Ids
   /\ LET row == Ov17[e.id]
          n == row.lanes
          bv == IF row.op = "copy" THEN e.a ELSE e.b
-         Fc == Footprint(row.c, n, e.sc, e.ic)
      IN /\ row.defined
         /\ e.nl = n /\ Len(e.a) = n /\ Len(bv) = n /\ Len(e.r) = n
         /\ IsWordSeq(e.a) /\ IsWordSeq(bv) /\ IsWordSeq(e.r)
         /\ AddrOk(row.a, n, e.sa, e.ia, e.aa, e.ea)
         /\ (row.op # "copy" => AddrOk(row.b, n, e.sb, e.ib, e.ab, e.eb))
         /\ AddrOk(row.c, n, e.sc, e.ic, e.ac, e.ec)
+        \* the alias mode fits the row; in place = one address map, pairwise distinct lanes
+        /\ e.alias \in AliasModes /\ AliasAllowed(row, e.alias) /\ e.aj \in Lanes(n)
+        /\ (e.alias = "ca" => e.sa = e.sc /\ e.ia = e.ic /\ Injective(row.c, n, e.sc, e.ic))
+        /\ (e.alias = "cb" => e.sb = e.sc /\ e.ib = e.ic /\ Injective(row.c, n, e.sc, e.ic))
+        /\ (e.alias = "sa" => LET so == CHOOSE o \in ScalarOperands(row) : row[Other(o)].kind \in MemKinds
+                               IN e[so][1] = e[Other(so)][e.aj + 1])        \* the scalar IS that element
+        \* every lane: the field operation on the operand values held before the call
         /\ IF InMemory(row.c)
              THEN \A k \in Lanes(n) : CellOk(row.op, row.c, n, e.sc, e.ic, Addr(row.c, k, e.sc, e.ic), e.r[k + 1], e.a, bv)
              ELSE \A k \in Lanes(n) : ResultOk(row.op, e.r[k + 1], e.a[k + 1], bv[k + 1])
-        /\ SeqSet(e.chg) = Fc                      \* written: exactly the write footprint
+        \* written: exactly the write footprint (a result cell that held an operand word may keep it if the result is that word)
+        /\ SeqSet(e.chg) = ChangedCells(row.c, n, e.sc, e.ic, e.r, PreWords(e, row, n))
         /\ e.same                                  \* no stray read influences the result
         /\ e.in_same /\ e.slack_ok                 \* nothing else written
 
